@@ -263,6 +263,69 @@ func genRandom(r *rng.R, big bool) (*caseIn, string, bool) {
 	return ci, kind, nontrivial
 }
 
+// genHostileOpen: a message IN FLIGHT (k of its n >= 2 segments delivered, its buffer open) and then
+// a hostile datagram with the SAME sequence number:
+//   0: a larger announced max index m' > m, index in (m, m']   (beyond the open buffer)
+//   1: a smaller announced max index, index within it
+//   2: the same max index, index > m
+//   3: an index already received, different payload (a duplicate: outside the property's
+//      quantifier, the correspondence with the model is still checked)
+// followed by the remaining genuine segments.  The open buffer was sized from the FIRST datagram;
+// the range check has to be made against the buffer (Model/Segment.v receive_d does).
+func genHostileOpen(r *rng.R, variant int) (*caseIn, string, bool) {
+	P := 1 + r.Intn(4)
+	ci := &caseIn{P: P, Ex: uint64(50 + r.Intn(50))}
+	seq := uint32(r.U64())
+	if r.Chance(1, 4) {
+		seq = uint32(r.Intn(3))
+	}
+	n := 2 + r.Intn(4) // segments
+	size := (n-1)*P + r.Intn(P)
+	if size == 0 {
+		size = 1
+	}
+	pay := r.Bytes(size)
+	ci.Msgs = append(ci.Msgs, msgIn{Seq: seq, Len: size, pay: pay})
+	segs := segmentsOf(P, seq, pay)
+	n = len(segs)
+	m := n - 1 // announced max index
+	perm := r.Perm(n)
+	k := 1 + r.Intn(n-1)
+	hdr := func(mx, idx int, body []byte) []byte {
+		raw := []byte{byte(seq >> 24), byte(seq >> 16), byte(seq >> 8), byte(seq), byte(mx >> 8), byte(mx), byte(idx >> 8), byte(idx)}
+		return append(raw, body...)
+	}
+	var hostile []byte
+	switch variant {
+	case 0:
+		mx := m + 1 + r.Intn(4)
+		if r.Chance(1, 5) {
+			mx = 65535
+		}
+		idx := m + 1 + r.Intn(mx-m)
+		hostile = hdr(mx, idx, r.Bytes(r.Intn(P+1)))
+	case 1:
+		mx := r.Intn(m)
+		hostile = hdr(mx, r.Intn(mx+1), r.Bytes(r.Intn(P+1)))
+	case 2:
+		hostile = hdr(m, m+1+r.Intn(5), r.Bytes(r.Intn(P+1)))
+	default:
+		hostile = hdr(m, perm[r.Intn(k)], r.Bytes(1+r.Intn(P)))
+	}
+	var t uint64
+	for i, j := range perm {
+		if i == k {
+			ci.Evs = append(ci.Evs, ev{T: t, Raw: hostile})
+			if r.Chance(1, 3) { // and once more
+				ci.Evs = append(ci.Evs, ev{T: t, Raw: hostile})
+			}
+		}
+		t += uint64(r.Intn(3))
+		ci.Evs = append(ci.Evs, ev{T: t, Raw: segs[j]})
+	}
+	return ci, fmt.Sprintf("hostile-open-buffer-%d", variant), true
+}
+
 // exhaustive: one message of n segments, every subset of its segments in every order
 func genExhaustive(P, n int, seq uint32, add func(*caseIn, string, bool)) {
 	size := (n-1)*P + 1
@@ -412,6 +475,15 @@ func main() {
 		ci, kind, nt := genRandom(cr, false)
 		add(ci, kind, nt)
 	}
+	nhost := 80
+	if *tier == "thorough" {
+		nhost = 1200
+	}
+	for i := 0; i < nhost; i++ {
+		cr := r.Fork()
+		ci, kind, nt := genHostileOpen(cr, i%4)
+		add(ci, kind, nt)
+	}
 	for i := 0; i < nbig; i++ {
 		cr := r.Fork()
 		ci, kind, nt := genRandom(cr, true)
@@ -424,7 +496,7 @@ func main() {
 	} else {
 		extra["direct_regressions"] = "P=1: 65534- and 65535-byte messages (65535/65536 segments) delivered once in reverse order; 65536 bytes refused"
 	}
-	rule := fmt.Sprintf("exhaustive: one message of n<=%d segments, every subset of segments in every order; random: 1-4 messages, P in 1..8 (and the default 1188), sizes at multiples of P +-1, random interleaving, loss 1/3, malformed 1/3 (short, index>max, arbitrary), duplicates 1/8, expiry events 1/5. non-trivial = some message has >=2 segments and the arrival is reordered, lossy or interleaved; distinct = distinct Coq case terms", maxN)
+	rule := fmt.Sprintf("exhaustive: one message of n<=%d segments, every subset of segments in every order; random: 1-4 messages, P in 1..8 (and the default 1188), sizes at multiples of P +-1, random interleaving, loss 1/3, malformed 1/3 (short, index>max, arbitrary), duplicates 1/8, expiry events 1/5; hostile-open-buffer: a message in flight (k of n>=2 segments in), then a datagram with the same sequence number announcing a larger max index with an index beyond the open buffer / a smaller max index / the same max with an index beyond it / a received index with another payload, then the remaining genuine segments. non-trivial = some message has >=2 segments and the arrival is reordered, lossy or interleaved; distinct = distinct Coq case terms", maxN)
 	if err := w.Flush(*seed, *tier, rule, false, extra); err != nil {
 		fmt.Fprintln(os.Stderr, err)
 		os.Exit(2)
